@@ -139,7 +139,7 @@ macro_rules! rank_intra {
 // @bound B=256: two fully symbolic lines, length 257..=512 symbolic, every symbol and position <= length
 // @funcs RSQVector::rank_intra_block, qvector::DataLine::rank_unchecked
 rank_intra!(c05_rank_intra_256, RSSupportPlain<256>, 256, 2);
-// @h props=C05,C04:t tier=quick family=K mem=5 timeout=2400 role=rsqvector.rank_intra_block.512
+// @h props=C05,C04:t tier=thorough family=K mem=5 timeout=3600 role=rsqvector.rank_intra_block.512
 // @bound B=512: three fully symbolic lines (one and a half blocks), length 513..=768 symbolic
 // @funcs RSQVector::rank_intra_block, qvector::DataLine::rank_unchecked
 rank_intra!(c05_rank_intra_512, RSSupportPlain<512>, 512, 3);
